@@ -61,7 +61,7 @@ def _is_instance_file(name):
 class World:
     """ZooKeeper + cache directory + at most one live agent process."""
 
-    def __init__(self, config, clock, log, root):
+    def __init__(self, config, clock, log, root, parse_cache=None):
         self.config = config
         self.clock = clock
         self.log = log
@@ -93,11 +93,13 @@ class World:
         self.cand = {}
         self.pre_outdated = None
         self.first_sync_in_step = False
-        self.touched = set()
         # reference data
         self.intended = {}        # name -> set of canon(expected content)
         self.prepop = {}          # name -> set of raw bytes planted
-        self.parse_cache = {}     # raw bytes -> canon str or None
+        # raw bytes -> canon str or None (pure function of the bytes: may be
+        # shared by the fault variants of one history)
+        self.parse_cache = parse_cache if parse_cache is not None else {}
+        self.exp_cache = {}       # name -> (versions, expected dict)
         self.view = {}            # cache dir: name -> raw bytes
         # bookkeeping
         self.source = None
@@ -115,7 +117,7 @@ class World:
             'outdated_rewritten': 0, 'manifest_missing': 0,
             'placement_missing': 0, 'placement_data_empty': 0,
             'restarts': 0, 'starts': 0, 'agent_deaths': 0,
-            'died_spontaneous': 0, 'mid_ops_applied': 0,
+            'mid_ops_applied': 0,
             'quiescent_checks': 0, 'reader_checks': 0,
             'written_content_checks': 0, 'ready_set': 0, 'ready_cleared': 0,
             'prepop_stale': 0, 'prepop_outdated': 0, 'prepop_fresh': 0,
@@ -123,7 +125,7 @@ class World:
             'dotfiles_left_by_crash': 0, 'waited_for_placement_node': 0,
             'fault_variants': 0, 'fault_inside_write_safe': 0,
             'crash_between_write_and_replace': 0,
-            'fault_survived_by_agent': 0, 'converged_after_fault': 0,
+            'converged_after_fault': 0,
         }
         self.faults = {k: 0 for k in fsfault.KINDS}
         self.faults.update({'agent_killed': 0, 'session_expired': 0,
@@ -257,7 +259,8 @@ class World:
         self.last_death = (cause, self.step_kind, where)
         self.log.ev('agent-died', cause, self.step_kind, where)
         if cause == 'spontaneous':
-            self.probes['died_spontaneous'] += 1
+            self.probes['died_spontaneous'] = \
+                self.probes.get('died_spontaneous', 0) + 1
             if self.step_kind == 'start':
                 self.fail('C12:no-convergence-after-restart',
                           'a (re)started agent died during its initial '
@@ -280,9 +283,6 @@ class World:
         self.faults['agent_killed'] += 1
         self.seam.kill()
         raise SimCrash('kill op')
-
-    def agent_death_detail(self):
-        return self.last_death
 
     def op_expire(self, op):
         """The agent's ZooKeeper session expires (exit_on_lost)."""
@@ -334,7 +334,9 @@ class World:
             self.fired.append(fired)
             self.faults[fired['kind']] += 1
             if not died:
-                self.probes['fault_survived_by_agent'] += 1
+                # never seen on the unchanged tree: no OSError is handled
+                self.probes['fault_survived_by_agent'] = \
+                    self.probes.get('fault_survived_by_agent', 0) + 1
         self.log.ev('step', kind, [[c, b] for c, b, _n in trace], fired,
                     died)
         written = sorted({n for n in seam.replaced + seam.created
@@ -393,7 +395,17 @@ class World:
     def on_agent_get(self, path):
         self.gets += 1
         mid = self.mid
-        if mid is not None and mid.get('at_get') == self.gets:
+        hit = False
+        if mid is not None:
+            if mid.get('at_read'):
+                # lands right before the agent reads that node
+                target = mid['do'].get('name', '')
+                hit = path == (z.path.placement(HOST, target)
+                               if mid['at_read'] == 'placement'
+                               else z.path.scheduled(target))
+            else:
+                hit = mid.get('at_get') == self.gets
+        if hit:
             self.mid = None
             self.probes['mid_ops_applied'] += 1
             self.faults['mid_sync_change'] += 1
@@ -424,11 +436,16 @@ class World:
             canon = logmod.canon(exp)
             self.intended.setdefault(name, set()).add(canon)
             self.cand.setdefault(name, set()).add(canon)
-        self.touched.add(name)
 
     def op_root_put(self, _op):
         self.clock.advance(ADMIN_OP_S)
         zkutils.ensure_exists(self.admin, ROOT)
+
+    def op_root_del(self, _op):
+        """Never generated (outside the quantifier, see assumptions): the
+        server is removed from the cell.  Kept for probing by hand."""
+        self.clock.advance(ADMIN_OP_S)
+        zkutils.ensure_deleted(self.admin, ROOT)
 
     def op_sched_put(self, op):
         self.clock.advance(ADMIN_OP_S)
@@ -522,10 +539,15 @@ class World:
         pnode = self.zk.nodes.get(z.path.placement(HOST, name))
         if mnode is None or pnode is None or '#' not in name:
             return None
+        key = (mnode.czxid, mnode.mzxid, pnode.czxid, pnode.mzxid)
+        hit = self.exp_cache.get(name)
+        if hit is not None and hit[0] == key:
+            return hit[1]
         out = dict(json.loads(mnode.data.decode()))
         out['task'] = name.split('#', 1)[1]
         if pnode.data:
             out.update(json.loads(pnode.data.decode()))
+        self.exp_cache[name] = (key, out)
         return out
 
     def parse(self, raw):
@@ -551,14 +573,18 @@ class World:
         for name in list(view):
             if name not in present:
                 del view[name]
+        changed = []
         for name in names:
             if name == base or name not in view:
                 try:
                     with open(os.path.join(self.cache_dir, name), 'rb') as f:
                         view[name] = f.read()
+                    changed.append(name)
                 except FileNotFoundError:
                     view.pop(name, None)
-        self.check_partial('fs-step', self.seam.fired, fresh=False)
+        # the others were looked at after the call that last changed them
+        self.check_partial('fs-step', self.seam.fired, fresh=False,
+                           only=changed)
 
     def refresh_view(self):
         view = {}
@@ -567,7 +593,7 @@ class World:
                 view[name] = f.read()
         self.view = view
 
-    def check_partial(self, when, fired, fresh=True):
+    def check_partial(self, when, fired, fresh=True, only=None):
         """Every non-dot file is a complete manifest that was at some point
         the intended content for its name (or what the generator planted)."""
         if self.violation is not None:
@@ -575,7 +601,7 @@ class World:
         if fresh:
             self.refresh_view()
         self.probes['reader_checks'] += 1
-        for name in sorted(self.view):
+        for name in sorted(self.view if only is None else only):
             if not _is_instance_file(name):
                 continue
             raw = self.view[name]
@@ -735,7 +761,7 @@ def gen_manifest(rng, cfg, name):
                           'set -e\ncd /opt\n./start.sh\n'] + ODD_STRINGS)
         if rng.random() < cfg['p_big']:
             cmd = ('echo %04d; ' % rng.randint(0, 9999)) * rng.randint(
-                40, 1500)
+                40, cfg['big_max'])
         services.append({'name': 's%d' % i, 'command': cmd,
                          'restart': {'limit': rng.randint(0, 5),
                                      'interval': rng.choice([30, 60, 0.5])}})
@@ -938,9 +964,17 @@ class Generator:
         placed = self.placed(world)
         if not placed:
             return op
-        name = rng.choice(placed)
-        kind = rng.choice(['place_del', 'place_del', 'sched_del',
-                           'place_put', 'sched_put'])
+        # prefer an instance the coming synchronisation will have to fetch
+        have = set(os.listdir(world.cache_dir))
+        todo = [n for n in placed if n not in have]
+        name = rng.choice(todo if todo and rng.random() < 0.8 else placed)
+        at_read = rng.choice(['placement', 'scheduled', None])
+        if at_read == 'placement':
+            kind = rng.choice(['place_del', 'place_del', 'place_del',
+                               'place_put'])
+        else:
+            kind = rng.choice(['place_del', 'place_del', 'sched_del',
+                               'sched_del', 'place_put', 'sched_put'])
         if kind == 'place_del':
             do = {'op': 'place_del', 'name': name}
         elif kind == 'sched_del':
@@ -951,7 +985,11 @@ class Generator:
         else:
             do = {'op': 'sched_put', 'name': name,
                   'manifest': gen_manifest(rng, self.config, name)}
-        op['mid'] = {'at_get': rng.randint(1, 7), 'do': do}
+        if at_read is not None:
+            op['mid'] = {'at_read': at_read, 'do': do}
+            return op
+        hi = 2 * len(todo) + (1 + len(placed) if op['op'] == 'start' else 0)
+        op['mid'] = {'at_get': rng.randint(1, max(2, hi)), 'do': do}
         return op
 
     def g_root_put(self, world):
@@ -1087,13 +1125,15 @@ def make_config(prop, tier, rng):
     big = tier == 'thorough'
     cfg = {
         'start': 1700000000.0 + rng.randint(0, 7 * 86400),
-        'bufsize': rng.choice([7, 24, 64, 200, 8192]),
+        'bufsize': rng.choice([64, 128, 256, 256, 1024, 8192]),
         'n_ops': rng.randint(8, 45 if big else 28),
         'napps': rng.randint(1, 6 if big else 4),
         'proids': ['proid%d' % i for i in range(rng.randint(1, 2))],
         'p_root': rng.choice([0.5, 0.9, 1.0]),
-        'p_mid': rng.choice([0.0, 0.15, 0.4]),
+        'p_mid': rng.choice([0.1, 0.3, 0.6]),
         'p_big': rng.choice([0.0, 0.0, 0.05]),
+        'big_max': 1500 if big else 250,
+        'max_f': 600 if big else 100,
         'picks': 2 if big else 1,
         'tail': rng.choice([0, 3, 6]),
     }
@@ -1222,7 +1262,7 @@ class CacheSim(enginemod.Engine):
         ]
 
     def quick_runs(self, prop):
-        return 192
+        return 128
 
     def make_config(self, prop, tier, rng):
         return make_config(prop, tier, rng)
@@ -1240,7 +1280,7 @@ class CacheSim(enginemod.Engine):
         world = None
         try:
             os.environ['TREADMILL_HOSTNAME'] = HOST
-            world = World(config, clock, log, root)
+            world = World(config, clock, log, root, self._parse_cache)
             seam = world.seam
             fake_os = fsfault.FaultOS(seam)
             fake_io = fsfault.FaultIO(seam)
@@ -1293,7 +1333,16 @@ class CacheSim(enginemod.Engine):
             fsseam.remove_scratch(root)
         return res
 
+    _parse_cache = None
+
     def execute(self, prop, config, seed, ops=None, keep_log=False):
+        self._parse_cache = {}
+        try:
+            return self._execute(config, seed, ops, keep_log)
+        finally:
+            self._parse_cache = None
+
+    def _execute(self, config, seed, ops, keep_log):
         if ops is not None:
             res = self._run(config, seed, ops, keep_log)
             fired = res.extra.get('fired', [])
@@ -1314,7 +1363,13 @@ class CacheSim(enginemod.Engine):
             nrep = sum(1 for c, b, _n in traces[j]
                        if c == 'replace' and _is_instance_file(b))
             if nrep:
-                cands.append((j, nrep))
+                cands.append((j, nrep, len(traces[j])))
+        max_f = config.get('max_f', 120)
+        small = [c for c in cands if c[2] <= max_f]
+        if small:
+            cands = small
+        elif cands:
+            cands = [min(cands, key=lambda c: (c[2], c[0]))]
         total = enginemod.Result()
         total.ops = history
         total.faults = dict(base.faults)
@@ -1330,7 +1385,7 @@ class CacheSim(enginemod.Engine):
             # the step with most cache writes, then random others
             best = max(cands, key=lambda c: (c[1], -c[0]))
             picks.append(best[0])
-            rest = [j for j, _n in cands if j != best[0]]
+            rest = [c[0] for c in cands if c[0] != best[0]]
             rng.shuffle(rest)
             picks.extend(rest[:max(0, config.get('picks', 1) - 1)])
             for j in sorted(picks):
@@ -1368,7 +1423,9 @@ class CacheSim(enginemod.Engine):
                             'agent_deaths', 'reader_checks',
                             'quiescent_checks', 'written_content_checks',
                             'died_spontaneous'):
-                    total.probes[key] += res.probes.get(key, 0)
+                    if key in res.probes:
+                        total.probes[key] = total.probes.get(key, 0) + \
+                            res.probes[key]
                 for fd in fired:
                     if _inside_write_safe(fd):
                         total.probes['fault_inside_write_safe'] += 1
